@@ -75,19 +75,21 @@ def planted_variants(g, copies):
     return c
 
 
-def check_sample(res, db, copies, rl, depth, desc, params=None):
+def check_sample(res, db, copies, rl, depth, desc, params=None, truth=False):
     """Simulate, genotype, check. Returns True if the case was decided (precondition met).
 
     A discrepancy on a sample whose planted alleles contain an insertion is re-examined with the
     read-phase term switched off: if it vanishes, it is the (listed) insertion-site phase mechanism."""
     g = db.gene
     sub = Res()
-    decided = _check_sample(sub, db, copies, rl, depth, desc, params)
+    decided = _check_sample(sub, db, copies, rl, depth, desc, params, truth)
+    res._sols = getattr(sub, "_sols", None)
+    res._observables = {k: getattr(sub, "_" + k, None) for k in ("subsumed", "miscount", "shifted")}
     has_ins = any(not (">" in m.op and len(m.op) == 3)
                   for c in copies for m in tables.allele_variants(g, c[0], c[1]))
     if sub.disc and has_ins and not (params or {}).get("phase") is False:
         sub2 = Res()
-        _check_sample(sub2, db, copies, rl, depth, desc, dict(params or {}, phase=False))
+        _check_sample(sub2, db, copies, rl, depth, desc, dict(params or {}, phase=False), truth)
         if not sub2.disc:
             for d in sub.disc:
                 d["mech"] = "phase-nonsnp-site"
@@ -115,9 +117,9 @@ def check_sample(res, db, copies, rl, depth, desc, params=None):
     return decided
 
 
-def _check_sample(res, db, copies, rl, depth, desc, params=None):
+def _check_sample(res, db, copies, rl, depth, desc, params=None, truth=False):
     g = db.gene
-    bam, rds = db.sim(copies, "s.bam", rl, depth)
+    bam, rds = db.sim(copies, "s.bam", rl, depth, truth=truth)
     prof_bam = db.ref_bam(rl, depth)
     lpmon.reset()
     import aldy.sam
@@ -217,6 +219,10 @@ def _check_sample(res, db, copies, rl, depth, desc, params=None):
                   f"genotyping an error-free sample failed: {err!r}", **desc)
         return True
     sols = list(out.values())[0]
+    res._sols = sorted(
+        (tuple(sorted((a.major, a.minor, tuple(sorted(g.get_refseq(m) for m in a.added)),
+                       tuple(sorted(g.get_refseq(m) for m in a.missing))) for a in s.solution)),
+         tuple(sorted(s.major_solution.cn_solution.solution.items()))) for s in sols)
     reported = [collections.Counter(a.major for a in s.solution) for s in sols]
     res.check("planted_majors_among_best", planted_majors in reported,
               "the planted combination of major alleles is not among the best solutions",
